@@ -165,6 +165,9 @@ pub fn jobs(id: &str, thorough: bool) -> Vec<Job> {
                 v.push(w(c, &["C07"], if thorough { 3 } else { 2 }, false));
             }
             v.push(w(scen::s_life("S-life/2htlc+extra", true, true, false), &["C07"], 2, true));
+            for c in scen::s_set_cancel() {
+                v.push(w(c, &["C07"], if thorough { 3 } else { 2 }, false));
+            }
         }
         "C09" => {
             for (name, two, retry) in [("S-life/1htlc/probe", false, false), ("S-life/2htlc/probe", true, false)] {
